@@ -103,6 +103,23 @@ func TestC07(t *testing.T) {
 	shard, nshards := vmon.Shard()
 	rng := vmon.NewRng(vmon.Seed(), uint64(700+shard))
 	w := &world{rep: rep, gc: vmon.NewGCMon()}
+	if shard%2 == 1 {
+		// garbage collections at arbitrary points of every history
+		stopGC := make(chan struct{})
+		defer close(stopGC)
+		go func() {
+			for {
+				select {
+				case <-stopGC:
+					return
+				default:
+					runtime.GC()
+					vmon.Churn(200)
+				}
+			}
+		}()
+		rep.Class("background-collections")
+	}
 	caseNo := 0
 	for fi := range ia.Ifaces {
 		f := &ia.Ifaces[fi]
